@@ -712,7 +712,7 @@ def pair_traces(ck, scenarios, tag, mode, owner, shards=8, classes=("C01", "C02"
                     if "o" in r:
                         r["o"] = {k: v for k, v in r["o"].items() if k not in CYCLE_O}
                     return r
-                cls = "C02" if strip(rx) == strip(ry) else "C01"
+                cls = "C02" if (strip(rx) == strip(ry) or rx.get("cpu") != ry.get("cpu")) else "C01"
                 done_ids.add(cur_id)
                 if cls == owner:
                     ndiff += 1
@@ -767,9 +767,32 @@ def c01_c02(ck, owner):
                 ck.mismatch(m, "case-op%02x-%s" % (m["op"], "-".join(m["fields"][:3])))
             if m.get("kind") == "crash" and owner == "C01":
                 ck.mismatch(m, "crash-op%02x" % m["op"])
-    # (c) random straight-line blocks with every terminator kind at boundary placements
-    n = 40000 if thorough else 3000
-    pair_traces(ck, gbprog.random_blocks(n, rng), "blocks", "block", owner, shards=12)
+    # (c) random straight-line blocks with every terminator kind at boundary placements, at the engine level
+    n = 200000 if thorough else 20000
+    blocks = gbprog.random_blocks(n, rng)
+    parts = [blocks[i::12] for i in range(12)]
+    files = []
+    for i, part in enumerate(parts):
+        f = os.path.join(rundir(), "blocks_%d.ndjson" % i)
+        gbprog.write_scenarios(f, part)
+        files.append(f)
+    from concurrent.futures import ThreadPoolExecutor
+    with ThreadPoolExecutor(max_workers=12) as ex:
+        outs = list(ex.map(lambda f: gbv(["blocks", "--scenarios", f]), files))
+    recs = [r for o in outs for r in o]
+    if len([r for r in recs if r.get("kind") == "summary"]) != 12:
+        raise ToolError("block replay incomplete")
+    ck.count(n)
+    ck.nontrivial_count += n
+    ck.traces += n
+    for m in recs:
+        if m.get("kind") == "pair-block" and ((m["class"] == "cycles") == (owner == "C02")):
+            ck.mismatch(m, "block-%s-%s" % (m["class"], "-".join(m["fields"][:3])))
+        if m.get("kind") == "crash" and owner == "C01":
+            ck.mismatch(m, "block-crash")
+    # the same blocks as whole emulator steps in both builds (device catch-up and interrupt check included);
+    # a difference in the cycles the CPU reports belongs to C02, any other first difference to C01
+    pair_traces(ck, blocks[:(20000 if thorough else 2000)], "blocks", "block", owner, shards=12)
 
 
 @prop("C01")
